@@ -144,6 +144,9 @@ def run(spec):
     (r2 / 'clash.py').write_text('WHO = "r2"\ndef only_r2(): pass\n')
     (extra / 'addedmod.py').write_text('def from_added(): pass\n')
     (proj / 'topmod.py').write_text('def from_project(): pass\n')
+    if rnd.random() < 0.4:
+        # the project directory is itself a package
+        (proj / '__init__.py').write_text('')
     # nested dirs inside the project, some with __init__.py
     chain = []
     d = proj
@@ -181,6 +184,11 @@ def run(spec):
     loc_opts = [('nopath', None), ('outside', outside / 'buf.py'),
                 ('outside_name_prefix', sibling / 'buf.py'), ('depth0', proj / 'buf.py')] + \
         [('depth%d' % (i + 1), c / 'buf.py') for i, c in enumerate(chain)]
+    # the buffers inside the project are saved files in half of the cases
+    if rnd.random() < 0.5:
+        for _n, _l in loc_opts:
+            if _l is not None and proj in pathlib.Path(_l).parents:
+                pathlib.Path(_l).write_text('# saved buffer\n')
     combos = list(itertools.product(sys_path_opts, added_opts, (True, False), proj_opts, env_opts,
                                     (False, True), loc_opts))
     rnd.shuffle(combos)
@@ -221,6 +229,19 @@ def run(spec):
                         if a != b:
                             rec.violate('c20:roundtrip:' + attr.lstrip('_'),
                                         'after save+load %s is %r, was %r' % (attr, b, a), **w)
+                # ---- the saved project is what default discovery loads for a buffer below it
+                # (documented: the first thing looked for while walking up is the saved configuration)
+                if ok and loc is not None and proj in pathlib.Path(loc).parents:
+                    ok, dp = apimon.call(rec, 'get_default_project', jedi.get_default_project, loc, witness=w)
+                    if ok:
+                        rec.ev('c20:default_project_discoveries')
+                        got = (str(pathlib.Path(dp.path).absolute()), dp.sys_path and list(map(str, dp.sys_path)),
+                               list(map(str, dp.added_sys_path)), dp.smart_sys_path, dp.load_unsafe_extensions)
+                        want = (str(pathlib.Path(p.path).absolute()), p.sys_path and list(map(str, p.sys_path)),
+                                list(map(str, p.added_sys_path)), p.smart_sys_path, p.load_unsafe_extensions)
+                        if got != want:
+                            rec.violate('c20:default_project_is_not_the_saved_one', 'get_default_project(%s) gives '
+                                        '%s, the project saved in %s has %s' % (loc, got, p.path, want), **w)
             shutil.rmtree(str(pathlib.Path(p.path).absolute() / '.jedi'), ignore_errors=True)
             # ---- (b)+(c) Script, effective path, import resolution
             if envn != 'none':
